@@ -30,6 +30,34 @@ def do_replay(args, script):
     with open(args.replay) as f:
         doc = json.load(f)
     prop = doc["property"]
+    if getattr(args, "digest_only", False):
+        st, res = fork_call(checks.replay_trace, (prop, doc["trace"]))
+        if st != "ok":
+            print("HARNESS-ERROR replay failed: %s" % res)
+            return 2
+        print("CASE-DIGEST %s" % res["digest"])
+        return 0
+    if doc.get("hashseeds"):
+        digs = {}
+        for hs in doc["hashseeds"]:
+            env = dict(os.environ)
+            env["PYTHONHASHSEED"] = str(hs)
+            env["VERIF_REEXEC"] = "1"
+            p = subprocess.run([sys.executable, script, prop, "--replay", args.replay, "--digest-only"], env=env,
+                               capture_output=True, text=True, timeout=600)
+            for line in p.stdout.splitlines():
+                if line.startswith("CASE-DIGEST "):
+                    digs[hs] = line.split()[1]
+        print("digests per PYTHONHASHSEED: %s" % digs)
+        if len(digs) != len(doc["hashseeds"]):
+            print("HARNESS-ERROR could not compute all digests")
+            return 2
+        if len(set(digs.values())) > 1:
+            print("REPRODUCED %s: results differ between hash seeds" % doc["clause"])
+            print("VIOLATION property=%s replay=%s" % (prop, os.path.abspath(args.replay)))
+            return 1
+        print("NOT-REPRODUCED property=%s clause=%s" % (prop, doc["clause"]))
+        return 0
     st, res = fork_call(checks.replay_trace, (prop, doc["trace"]))
     if st != "ok":
         print("HARNESS-ERROR replay failed: %s" % res)
@@ -48,7 +76,13 @@ def do_replay(args, script):
 
 
 def do_digests(args):
-    idxs = [int(x) for x in args.digests.split(",") if x]
+    idxs = []
+    for part in args.digests.split(","):
+        if "-" in part:
+            a, b = part.split("-")
+            idxs.extend(range(int(a), int(b) + 1))
+        elif part:
+            idxs.append(int(part))
     agg = run_many("simkit.checks", "run_index", args.prop, args.seed, idxs, procs=args.procs or 3, keep=0)
     if agg.errors:
         print("HARNESS-ERROR %s" % agg.errors[0]["error"])
@@ -92,13 +126,41 @@ def main(args, script):
         k = max(4, min(60, len(done) // 50))
         step = max(1, len(done) // k)
         sample = done[::step][:k]
-        other = digests_in_fresh_interpreter(script, prop, args.seed, sample, 4242, 3)
+        other = digests_in_fresh_interpreter(script, prop, args.seed, sample, 0 if spec.get("hashseeds") else 4242, 3)
         resample["n"] = len(sample)
         bad = [i for i in sample if other.get(i) != agg.digests[i]]
         resample["mismatches"] = len(bad)
         if bad:
             print("HARNESS-NONDETERMINISM run indices %s differ between executions" % bad[:5])
             return 2
+
+    # ---- hash-seed sweep (C09 / C12): the whole workload again in fresh interpreters
+    sweep = {}
+    if spec.get("hashseeds") and agg.runs:
+        done = sorted(agg.digests)
+        spec_idx = "%d-%d" % (done[0], done[-1])
+        for hs in (1, 4242, 1000 + args.seed % 100000):
+            if deadline is not None and time.time() > deadline + 600:
+                break
+            other = digests_in_fresh_interpreter(script, prop, args.seed, [spec_idx], hs, args.procs or 16)
+            sweep[hs] = len(other)
+            for i in done:
+                a, b = agg.digests[i], other.get(i)
+                if b is None or a == b:
+                    continue
+                if a.split(":")[0] != b.split(":")[0]:
+                    print("HARNESS-NONDETERMINISM run %d: the generated case itself differs under PYTHONHASHSEED=%d" % (i, hs))
+                    return 2
+                st, r = fork_call(checks.run_index, (prop, args.seed, i))
+                if st != "ok":
+                    print("HARNESS-ERROR %s" % r)
+                    return 2
+                r["idx"] = i
+                r["violations"] = [{"property": prop, "clause": prop + "/seed-dependent", "step": 0,
+                                    "detail": "result under PYTHONHASHSEED=0 differs from the result under PYTHONHASHSEED=%d" % hs,
+                                    "sig": {"how": "seed-dependent"}}]
+                r["hashseeds"] = [0, hs]
+                agg.violating.append(r)
 
     # ---- triage
     known = findings.load()
@@ -124,6 +186,21 @@ def main(args, script):
     os.makedirs(os.path.join(ROOT, "replays"), exist_ok=True)
     for key, (res, v, cnt) in sorted(unknown.items(), key=lambda kv: -kv[1][2])[:4]:
         clause = v["clause"]
+        if res.get("hashseeds"):
+            path = os.path.join(ROOT, "replays", "%s-%d-%d.json" % (prop, args.seed, res["idx"]))
+            with open(path, "w") as f:
+                json.dump({"property": prop, "clause": clause, "detail": v["detail"], "sig": v.get("sig"),
+                           "verif_seed": args.seed, "run_index": res["idx"], "hashseeds": res["hashseeds"],
+                           "trace": res["trace"]}, f, indent=1)
+            rc, out = _replay_in_fresh_interpreter(script, prop, path)
+            if rc != 1:
+                print("HARNESS-NONDETERMINISM seed-dependence of run %d did not reproduce (rc=%d)" % (res["idx"], rc))
+                nondet = True
+                continue
+            print("violation %s: %s" % (clause, v["detail"]))
+            print("VIOLATION property=%s replay=%s" % (prop, path))
+            reported.append(path)
+            continue
         # 1. the recorded trace must fail again
         st, again = fork_call(checks.replay_trace, (prop, res["trace"]))
         if st != "ok" or not any(x["clause"] == clause for x in again["violations"]):
@@ -152,7 +229,7 @@ def main(args, script):
         reported.append(path)
 
     wall = time.time() - t0
-    write_evidence(prop, spec, tier, args.seed, agg, wall, wall_runs, resample, known_seen, len(unknown))
+    write_evidence(prop, spec, tier, args.seed, agg, wall, wall_runs, resample, known_seen, len(unknown), sweep)
     print("runs=%d steps=%d distinct_states=%d wall=%.1fs runs/h=%.0f known=%d unknown=%d" % (
         agg.runs, agg.steps, len(agg.states), wall, agg.runs / max(wall_runs, 1e-9) * 3600, len(known_seen), len(unknown)))
     if nondet:
@@ -170,7 +247,8 @@ RULES = {
 }
 
 
-def write_evidence(prop, spec, tier, seed, agg, wall, wall_runs, resample, known_seen, n_unknown):
+def write_evidence(prop, spec, tier, seed, agg, wall, wall_runs, resample, known_seen, n_unknown, sweep=None):
+    sweep = sweep or {}
     st = {k: dict(v) for k, v in agg.stats.items()}
     cov = {
         "evaluations": agg.steps if spec["engine"] == "c08" else agg.runs,
@@ -190,6 +268,7 @@ def write_evidence(prop, spec, tier, seed, agg, wall, wall_runs, resample, known
         "components_real": COMPONENTS_REAL,
         "components_stubbed": COMPONENTS_STUB,
         "determinism_resample": resample,
+        "hashseed_sweep": {"seeds": [0] + sorted(sweep), "runs_per_seed": sweep},
         "known_findings_seen": {k: v[1] for k, v in known_seen.items()},
         "exhaustive": False,
     }
